@@ -325,9 +325,33 @@ def r3(run, ctx):
                 a = [norm_text(x) for x in s.call.args]
                 run.check('R3', a and a[0] == 'pid' and 'signum' in a, 'each sender gets the '
                           'addressed pid and the parsed signal', se, s.node.ast)
+    childpid_without_pid(run, ctx, 'R3')
+
+
+def childpid_without_pid(run, ctx, rid):
+    """Signal.validate refuses every request that names a childpid but no pid,
+    whatever else it carries: no path of validate reaches its normal end under
+    'childpid' in props and 'pid' not in props (decided on the CFG, other atoms
+    free), so execute - where childpid outranks children and the loop then runs
+    over every active worker - never sees such a request."""
+    from sa.idioms import member_test
     sv = ctx.fn('circus.commands.sendsignal:Signal.validate')
-    run.check('R3', "'childpid' in props and 'pid' not in props" in norm_text(sv.node),
-              'childpid without pid is refused', sv, sv.node)
+    cfg = ctx.cfg(sv)
+
+    def assume(x):
+        v = member_test(x, "'childpid'", 'props')
+        if v is not None:
+            return v
+        v = member_test(x, "'pid'", 'props')
+        if v is not None:
+            return not v
+        return None
+    r = reach_under(cfg, cfg.entry, assume, labels_excluded=('exc', 'raise', 'reraise'))
+    run.check(rid, cfg.exit.id not in r, 'childpid without pid is refused', sv, sv.node,
+              'Signal.validate can accept a request with a childpid and no pid: execute then '
+              'sends the signal to that child through EVERY active worker - the owner delivers '
+              'it, the next worker raises NoSuchProcess, and the request is answered with an '
+              'error after a signal was sent', construct='CHILDPID-WITHOUT-PID')
 
 
 def r4(run, ctx):
